@@ -57,6 +57,8 @@ pub enum InternError {
     AlreadyCanonical,
     #[error("given canonical is already registered as an alias")]
     AlreadyAlias,
+    #[error("given alias is already registered as an alias of another canonical")]
+    ConflictingAlias,
 }
 
 /// Manage interned `&str` in the arena allocator.
@@ -121,11 +123,20 @@ impl<'arena, T: FromInterned<'arena>> InternStore<'arena, T> {
     }
 
     /// Inserts given `value` as always alias of `canonical`.
-    /// Returns error if given `value` is already registered as canonical.
+    /// Returns error if given `value` is already registered as canonical,
+    /// or as an alias of another canonical.
     pub fn insert_alias(&mut self, value: &str, canonical: T) -> Result<(), InternError> {
         match self.get(value) {
             Some(StoredValue::Canonical(_)) => Err(InternError::AlreadyCanonical),
-            Some(StoredValue::Alias { .. }) => Ok(()),
+            Some(StoredValue::Alias {
+                canonical: found, ..
+            }) => {
+                if found.as_interned() == canonical.as_interned() {
+                    Ok(())
+                } else {
+                    Err(InternError::ConflictingAlias)
+                }
+            }
             None => {
                 self.insert_alias_impl(value, canonical.as_interned());
                 Ok(())
@@ -313,6 +324,20 @@ mod tests {
         let foo: TestInterned = intern_store.insert_canonical("foo").unwrap();
         intern_store.insert_alias("bar", foo).unwrap();
         intern_store.insert_alias("bar", foo).unwrap();
+    }
+
+    #[test]
+    fn insert_alias_fails_on_alias_of_another_canonical() {
+        let bump = Bump::new();
+        let mut intern_store = InternStore::new(&bump);
+        let foo: TestInterned = intern_store.insert_canonical("foo").unwrap();
+        let baz: TestInterned = intern_store.insert_canonical("baz").unwrap();
+        intern_store.insert_alias("bar", foo).unwrap();
+        assert_eq!(
+            InternError::ConflictingAlias,
+            intern_store.insert_alias("bar", baz).unwrap_err()
+        );
+        assert_eq!(foo, intern_store.ensure("bar"));
     }
 
     #[test]
